@@ -23,10 +23,18 @@ package main
 // marker has arrived (one per open subscription it matches, not only the
 // marker's own subscription), so nothing is left behind.
 //
-// Auxiliary observations, taken when the composition is quiet:
-//   - before a REQ, the database's answer to the REQ's filters (the same
-//     queryEvent on the same database; the order among equal created_at is
-//     SQLite's and the judge takes the answer as given);
+// Auxiliary observations:
+//   - for a REQ, the SQLite child's own answer, recorded by a pass-through tap
+//     between that child and the merge session (sysTap: it forwards every
+//     message unchanged and in order, one at a time).  The order among equal
+//     created_at is SQLite's and the judge takes the answer as given.  An
+//     earlier version predicted the answer by running queryEvent on the same
+//     database right before the REQ; that is NOT the same answer: the SQL text
+//     depends on the iteration order of the filter's tag map (#p before #t or
+//     the other way round), and SQLite breaks a tie among equal created_at at
+//     a limit differently for the two texts, so two executions of one query on
+//     one database can return different events (observed: 6% of executions);
+//     whether the child's query failed is read off its log line;
 //   - after an EVENT, the harness waits until the background inserter has
 //     dealt with the event (the handler logs "inserted events" after every
 //     batch; an id the inserter saw recently is skipped without a log line,
@@ -39,7 +47,6 @@ import (
 	"encoding/json"
 	"fmt"
 	"log/slog"
-	"math"
 	"strings"
 	"sync"
 	"sync/atomic"
@@ -183,8 +190,8 @@ func sysFromEvents(es []*mocrelay.Event) []common.JEvent {
 type sysWin struct {
 	M     sysMsg          `json:"m"`
 	Sent  string          `json:"sent"`  // subscription id of the COUNT sentinel
-	Sq    []common.JEvent `json:"sq"`    // REQ: the database's answer right before the REQ
-	SqErr bool            `json:"sqerr"` // REQ: that query failed
+	Sq    []common.JEvent `json:"sq"`    // REQ: the SQLite child's own answer (recorded by the tap)
+	SqErr bool            `json:"sqerr"` // REQ: the child's query failed (its log line)
 	List  []common.JEvent `json:"list"`  // EVENT: the cache's listing afterwards
 	Obs   []sysReply      `json:"obs"`   // everything received up to and including the sentinel's reply
 }
@@ -200,12 +207,15 @@ type sysCase struct {
 // ---------------------------------------------------------------------------
 // counting the inserter's batches
 
-type sysLogCounter struct{ n *atomic.Int64 }
+type sysLogCounter struct{ n, qfail *atomic.Int64 }
 
 func (h sysLogCounter) Enabled(context.Context, slog.Level) bool { return true }
 func (h sysLogCounter) Handle(_ context.Context, r slog.Record) error {
-	if r.Message == "inserted events" {
+	switch r.Message {
+	case "inserted events":
 		h.n.Add(1)
+	case "failed to query events":
+		h.qfail.Add(1)
 	}
 	return nil
 }
@@ -233,6 +243,54 @@ func (l *sysLRU) seen(id string) bool {
 		l.ids = l.ids[:l.size]
 	}
 	return false
+}
+
+// ---------------------------------------------------------------------------
+// the tap on the SQLite child
+
+// sysTap wraps a handler without changing what it does: the client messages go
+// to the handler directly, every server message of the handler is recorded and
+// then passed on, one at a time and in order (one goroutine, unbuffered
+// channels).  For the merge session the child behind the tap is a child whose
+// messages take one more hop; the composed model lets a child's messages be
+// delayed arbitrarily anyway.
+type sysTap struct {
+	h   mocrelay.Handler
+	mu  sync.Mutex
+	log []mocrelay.ServerMsg
+}
+
+func (t *sysTap) ServeNostr(ctx context.Context, send chan<- mocrelay.ServerMsg, recv <-chan mocrelay.ClientMsg) error {
+	ctx, cancel := context.WithCancel(ctx)
+	defer cancel()
+	inner := make(chan mocrelay.ServerMsg)
+	go func() {
+		for {
+			select {
+			case <-ctx.Done():
+				return
+			case m := <-inner:
+				t.mu.Lock()
+				t.log = append(t.log, m)
+				t.mu.Unlock()
+				select {
+				case send <- m:
+				case <-ctx.Done():
+					return
+				}
+			}
+		}
+	}()
+	return t.h.ServeNostr(ctx, inner, recv)
+}
+
+// take returns what the handler has sent since the last call.
+func (t *sysTap) take() []mocrelay.ServerMsg {
+	t.mu.Lock()
+	defer t.mu.Unlock()
+	out := t.log
+	t.log = nil
+	return out
 }
 
 // ---------------------------------------------------------------------------
@@ -452,24 +510,20 @@ func sysRun(capacity int, msgs []sysMsg) (c sysCase) {
 		c.Err = "ping: " + err.Error()
 		return
 	}
-	var inserted atomic.Int64
-	logger := slog.New(sysLogCounter{n: &inserted})
+	var inserted, qfailed atomic.Int64
+	logger := slog.New(sysLogCounter{n: &inserted, qfail: &qfailed})
 	sqliteHandler, err := sqlite.NewSQLiteHandler(ctx, db, &sqlite.SQLiteHandlerOption{
 		EventBulkInsertNum: 1, EventBulkInsertDur: time.Hour, MaxLimit: sqlite.NoLimit, Logger: logger})
 	if err != nil {
 		c.Err = "NewSQLiteHandler: " + err.Error()
 		return
 	}
-	seed, err := sqlite.VerifSetOrLoadXXHashSeed(ctx, db)
-	if err != nil {
-		c.Err = "seed: " + err.Error()
-		return
-	}
 	cacheHandler := mocrelay.NewCacheHandler(capacity)
+	tap := &sysTap{h: sqliteHandler}
 	h := mocrelay.NewMergeHandler(
 		cacheHandler,
 		mocrelay.NewRouterHandler(sysRouterBuf),
-		sqliteHandler,
+		tap,
 	)
 	reg := prometheus.NewRegistry()
 	h = mocprom.NewPrometheusMiddleware(reg)(h)
@@ -492,19 +546,27 @@ func sysRun(capacity int, msgs []sysMsg) (c sysCase) {
 		sysMsg{K: "event", E: &flushEv})
 	for i, m := range session {
 		w := sysWin{M: m, Sent: fmt.Sprintf("\x01end-%d", i), Sq: []common.JEvent{}, List: []common.JEvent{}, Obs: []sysReply{}}
-		if m.K == "req" {
-			out, err := sqlite.VerifQueryEvent(ctx, db, seed, common.ToFilters(m.Fs), math.MaxUint)
-			if err != nil {
-				w.SqErr = true
-			} else {
-				w.Sq = sysFromEvents(out)
-			}
-		}
+		tap.take()
+		qf0 := qfailed.Load()
 		d.cur = []sysReply{}
 		ok := d.push(m.toClient()) &&
 			d.push(&mocrelay.ClientCountMsg{SubscriptionID: w.Sent, ReqFilters: []*mocrelay.ReqFilter{{}}}) &&
 			d.await(w.Sent)
 		w.Obs = d.cur
+		if m.K == "req" {
+			// the SQLite child has answered the sentinel, so its answer to the REQ is complete:
+			// the events it sent for the subscription before its EOSE
+			w.SqErr = qfailed.Load() != qf0
+			evs := []*mocrelay.Event{}
+			for _, sm := range tap.take() {
+				if e, isEv := sm.(*mocrelay.ServerEventMsg); isEv && e.SubscriptionID == m.Sub && e.Event != nil {
+					evs = append(evs, e.Event)
+				} else if eo, isEose := sm.(*mocrelay.ServerEOSEMsg); isEose && eo.SubscriptionID == m.Sub {
+					break
+				}
+			}
+			w.Sq = sysFromEvents(evs)
+		}
 		if !ok {
 			c.Wins = append(c.Wins, w)
 			c.Err = d.err
